@@ -63,6 +63,17 @@ def _is_num(t):
     return t[0].isdigit()
 
 
+def _to_int(t: str) -> int:
+    """int() without CPython's str->int digit limit (the reference reader must not share the interpreter's quirk)."""
+    if len(t) <= 4000:
+        return int(t)
+    v = 0
+    for k in range(0, len(t), 4000):
+        chunk = t[k:k + 4000]
+        v = v * (10 ** len(chunk)) + int(chunk)
+    return v
+
+
 def recognise(s: str) -> RefGraph:
     """Syntax per EBNF; raises Reject. Returns the raw items (semantic checks are in reference_read)."""
     toks = tokenize(s)
@@ -75,7 +86,7 @@ def recognise(s: str) -> RefGraph:
         i += 1
         cnt = 1
         if i < n and _is_num(toks[i]):
-            cnt = int(toks[i])
+            cnt = _to_int(toks[i])
             if cnt < 2:
                 raise Reject("syntax", "count must be > 1")
             i += 1
@@ -96,7 +107,7 @@ def recognise(s: str) -> RefGraph:
     tuples = []
     while i < n and toks[i] == "(":
         if i + 4 < n + 0 and _is_num(toks[i + 1]) and toks[i + 2] == "-" and _is_num(toks[i + 3]) and toks[i + 4] == ")":
-            tuples.append((int(toks[i + 1]), int(toks[i + 3])))
+            tuples.append((_to_int(toks[i + 1]), _to_int(toks[i + 3])))
             i += 5
         else:
             raise Reject("syntax", f"bad tuple at token {i}")
@@ -108,13 +119,13 @@ def recognise(s: str) -> RefGraph:
         while i < n and toks[i] == "(":
             if not (i + 2 < n and _is_num(toks[i + 1]) and toks[i + 2] == ":"):
                 raise Reject("syntax", "bad attribute block head")
-            idx = int(toks[i + 1])
+            idx = _to_int(toks[i + 1])
             i += 3
             props = []
             while True:
                 if not (i + 2 < n and toks[i] in ("mass", "rad") and toks[i + 1] == "=" and _is_num(toks[i + 2])):
                     raise Reject("syntax", "bad property")
-                props.append((toks[i], int(toks[i + 2])))
+                props.append((toks[i], _to_int(toks[i + 2])))
                 i += 3
                 if i < n and toks[i] == ",":
                     i += 1
@@ -139,20 +150,20 @@ def reference_read(s: str) -> RefGraph:
     n = len(atoms)
     for a, b in g.tuples_raw:
         if a == b:
-            raise Reject("self-loop", f"({a}-{b})")
+            raise Reject("self-loop", "tuple with equal endpoints")
     for a, b in g.tuples_raw:
         if a > n or b > n:
-            raise Reject("index", f"({a}-{b}) with {n} atoms")
+            raise Reject("index", f"tuple index beyond {n} atoms")
         g.edges.add((min(a, b) - 1, max(a, b) - 1))
     for idx, props in g.attr_blocks_raw:
         d = g.attrs.setdefault(idx - 1, {})
         for k, v in props:
             if k in d:
-                raise Reject("duplicate-attribute", f"atom {idx} {k}")
+                raise Reject("duplicate-attribute", k)
             d[k] = v
     for idx in g.attrs:
         if idx >= n:
-            raise Reject("index", f"attribute index {idx + 1} with {n} atoms")
+            raise Reject("index", f"attribute index beyond {n} atoms")
     return g
 
 
